@@ -435,8 +435,9 @@ class Fitter:
     ) -> None:
         top = self.frontier[self.depth]
         top_match = top.match.match_type(type_)
-        assert top_match is not None
-        top.match = top_match
+        # may be None, as in prosemirror-transform: a frontier level whose match is
+        # exhausted here is closed without being matched against again
+        top.match = top_match  # type: ignore[assignment]
         self.placed = add_to_fragment(
             self.placed,
             self.depth,
